@@ -165,6 +165,7 @@ func BuildStructCodec(p CodecBuilder, registry CodecRegistry, typ reflect.Type, 
 			shared.StoreOrSwap(k.typ, k.tag, pc)
 		}
 	}
+	verifhook.Yield("flushed")
 
 	return &c, nil
 }
